@@ -78,7 +78,7 @@ def traces():
                       dict(box, op="add_textbox", slide=0, text="after"), ck, dict(ck, sink="samepath"), {"op": "restart", "form": "path_keep"},
                       dict(ck, sink="samepath"), {"op": "restart"}]))
     # a movie is on the slide; the same clip is added again but its poster frame cannot be read; then save
-    evs = [{"op": "add_slide", "layout": 6}, mv(1), dict(mv(1), psrc=fl), dict(mv(1), psrc={"via": "stream", "pos": 0, "fault": {"kind": "eof", "at": 5}}),
+    evs = [{"op": "add_slide", "layout": 6}, mv(1), dict(mv(1), psrc=fl), ck, dict(mv(1), psrc={"via": "stream", "pos": 0, "fault": {"kind": "eof", "at": 5}}), ck,
            dict(mv(2), src={"via": "stream", "pos": 0, "fault": {"kind": "eio", "at": 2}}), ck, {"op": "restart"}, dict(mv(1), psrc=fl), ck, {"op": "restart"}]
     out.append(T("poster-fault-after-same-clip", [{"deck": "default"}], evs))
     # one stream kept by the caller and saved into repeatedly while the deck shrinks and grows
